@@ -38,6 +38,7 @@ ORACLES (the property evaluated on the real code).
     gud_reject        C20   geometry=1 / gamma out of range: ValueError at the first call; finite in-domain
     gud_focus         C20   t = 0.750024322 returns inf (FINDING)
 """
+import inspect
 import json
 import math
 import os
@@ -384,8 +385,9 @@ def _tie_gud_class(st, man, rng, n):
         r, t = rng.uniform(0.05, 3.0), rng.uniform(-1.0, 3.0)
         seen = {}
 
-        def g1d(**kw):
-            seen.update(kw)
+        def g1d(*args, _sig=inspect.signature(_m('exactpack.solvers.guderley.ramsey').guderley_1d), **kw):
+            # keyword or positional call: the wiring is what is compared, bound by the real signature
+            seen.update(_sig.bind(*args, **kw).arguments)
             return tuple(np.array([v]) for v in o)
         with patched(G, guderley_1d=g1d):
             def run():
@@ -537,8 +539,9 @@ def _tie_rmtv(st, man, rng, n):
         r, t = rng.uniform(0.05, 3.0), rng.uniform(0.0, 3.0)
         seen = {}
 
-        def rmtv(**kw):
-            seen.update(kw)
+        def rmtv(*args, _sig=inspect.signature(_m('exactpack.solvers.rmtv.timmes').rmtv), **kw):
+            # keyword or positional call: the wiring is what is compared, bound by the real signature
+            seen.update(_sig.bind(*args, **kw).arguments)
             return tuple(np.array([v]) for v in o)
         with patched(W, rmtv=rmtv):
             def run():
